@@ -534,6 +534,7 @@ func (c *Collection) Incr(key string, amt, deflt uint64, exp Exp) (result uint64
 			xattrs:   xattrs,
 			cas:      newCas,
 			exp:      exp,
+			isJSON:   true,
 			revSeqNo: revSeqNo,
 		}, nil
 	})
